@@ -172,6 +172,7 @@ pub struct Universe {
 	pub s2: u64,
 	pub s3: u64,
 	pub cap1: u64,
+	#[allow(dead_code)]
 	pub cap2: u64,
 }
 
